@@ -72,6 +72,9 @@ func boundsReport(w *World, r *Report, b *boundsAn, rule string, kinds map[strin
 			b.fieldOK, b.fieldOKIdx = b.fieldOKIdx, b.fieldOK
 		}
 		ok := b.isGuarded(s.operand, s.ins.Block(), s.need, 0)
+		if !ok && s.kind == "index" {
+			ok = b.indexFitsArray(s.ins, s.operand) || indexIntoGrownSlice(s.ins, s.operand)
+		}
 		if b.noWidth {
 			b.fieldOK, b.fieldOKIdx = b.fieldOKIdx, b.fieldOK
 		}
